@@ -16,6 +16,8 @@ pub struct TokenBasedLuaGenerator<'a> {
     /// where the last token written ends in the original code, when its content was read from
     /// the original code and nothing else (trivia included) has been written since
     last_reference_end: Option<usize>,
+    /// the last thing written is a number token that ends with a dot (`5.`)
+    last_number_dot: bool,
 }
 
 impl<'a> TokenBasedLuaGenerator<'a> {
@@ -26,6 +28,7 @@ impl<'a> TokenBasedLuaGenerator<'a> {
             currently_commenting: false,
             current_line: 1,
             last_reference_end: None,
+            last_number_dot: false,
         }
     }
 
@@ -35,6 +38,7 @@ impl<'a> TokenBasedLuaGenerator<'a> {
         self.current_line += utils::count_new_lines(string.as_bytes());
         self.output.push_str(string);
         self.last_reference_end = None;
+        self.last_number_dot = false;
     }
 
     fn write_trivia(&mut self, trivia: &Trivia) {
@@ -115,6 +119,7 @@ impl<'a> TokenBasedLuaGenerator<'a> {
                     self.output.push('\n');
                     self.current_line += 1;
                     self.last_reference_end = None;
+                    self.last_number_dot = false;
                 }
             }
 
@@ -136,6 +141,8 @@ impl<'a> TokenBasedLuaGenerator<'a> {
 
             self.push_str(content);
             self.last_reference_end = token.get_reference_range().map(|(_, end)| end);
+            self.last_number_dot =
+                content.ends_with('.') && content.starts_with(|c: char| c.is_ascii_digit());
         }
 
         #[cfg(darklua_verif)]
@@ -1452,6 +1459,7 @@ impl<'a> TokenBasedLuaGenerator<'a> {
                     crate::verif_hooks::trace("raw_space", "", 0);
                     self.output.push(' ');
                     self.last_reference_end = None;
+                    self.last_number_dot = false;
                 }
             }
         }
@@ -2044,6 +2052,12 @@ impl<'a> TokenBasedLuaGenerator<'a> {
 
     #[inline]
     fn needs_space(&self, next_character: char) -> bool {
+        if self.last_number_dot && (next_character.is_ascii_alphanumeric() || next_character == '_')
+        {
+            // a number written `5.` followed by a letter or a digit would read as one
+            // malformed number
+            return true;
+        }
         if let Some(last) = self.output.chars().last() {
             utils::should_break_with_space(last, next_character)
         } else {
@@ -2059,6 +2073,7 @@ impl<'a> TokenBasedLuaGenerator<'a> {
         self.current_line += 1;
         self.currently_commenting = false;
         self.last_reference_end = None;
+        self.last_number_dot = false;
     }
 }
 
